@@ -370,3 +370,45 @@ Proof.
   rewrite total_distance_reschedule in H2. lia.
 Qed.
 End Multi.
+
+(* ================= multi-activity jobs, cost objective without waiting ================= *)
+Section MultiCost.
+Variable dur dist : Z -> Z -> Z.
+Variable v : vehicle.
+Hypothesis Hu1 : v_ptime v = v_psvc v.
+Hypothesis Hu2 : v_psvc v = v_pwait v.
+
+Lemma shadow_no_wait_head : forall steps t, shadow_no_wait dur t steps -> no_wait t.
+Proof. intros [|[idx a] r] t H; cbn [shadow_no_wait] in H; tauto. Qed.
+
+Lemma multi_cost_exact_nonempty : forall steps t,
+  has_jobs t = true -> steps_ok dur t steps -> sched_ok dur t -> shadow_no_wait dur t steps ->
+  cost_fitness dist v (Objectives.apply_steps dur t steps) - cost_fitness dist v t = multi_cost_sum dur dist v t steps.
+Proof.
+  induction steps as [|[idx a] r IH]; intros t Hj Hok Hs Hn; cbn [Objectives.apply_steps multi_cost_sum]; [lia|].
+  destruct Hok as (Hidx & Ha & Hr). cbn [shadow_no_wait] in Hn. destruct Hn as [Hn0 Hn1].
+  pose proof (shadow_no_wait_head r _ Hn1) as Hn1h.
+  pose proof (cost_quote_exact_nowait dur dist v t idx a Hidx Hs Hn0 Hn1h Hu1 Hu2 ltac:(intros H; congruence)) as H1.
+  unfold route_cost, cost_quote, cost_estimate_route in H1. rewrite Hj in H1.
+  pose proof (IH _ (has_jobs_after_insert dur t idx a Ha) Hr (sched_ok_reschedule dur (insert_after t idx a)) Hn1) as H2.
+  lia.
+Qed.
+
+(* the quote eval_multi accumulates (route-level estimate once + activity-level estimates on the shadow tours) equals the change of
+   the cost objective, an unused tour counting as 0 before, when no shadow tour has waiting and the time rates are uniform *)
+Theorem multi_cost_exact_nowait : forall steps t,
+  steps <> [] -> steps_ok dur t steps -> sched_ok dur t -> shadow_no_wait dur t steps ->
+  (has_jobs t = false -> (length t <= 2)%nat /\ fst (hd (0%nat, mkAct 0 0 0 0 0 dzero 0 0) steps) = 0%nat) ->
+  cost_fitness dist v (Objectives.apply_steps dur t steps) - route_cost dist v t
+  = cost_estimate_route v t + multi_cost_sum dur dist v t steps.
+Proof.
+  intros [|[idx a] r] t Hne Hok Hs Hn Hempty; [congruence|]. cbn [Objectives.apply_steps multi_cost_sum].
+  destruct Hok as (Hidx & Ha & Hr). cbn [shadow_no_wait] in Hn. destruct Hn as [Hn0 Hn1]. cbn [hd fst] in Hempty.
+  pose proof (shadow_no_wait_head r _ Hn1) as Hn1h.
+  pose proof (cost_quote_exact_nowait dur dist v t idx a Hidx Hs Hn0 Hn1h Hu1 Hu2 Hempty) as H1.
+  unfold cost_quote in H1.
+  pose proof (multi_cost_exact_nonempty r _ (has_jobs_after_insert dur t idx a Ha) Hr
+                (sched_ok_reschedule dur (insert_after t idx a)) Hn1) as H2.
+  lia.
+Qed.
+End MultiCost.
